@@ -638,10 +638,12 @@ pub fn receiver_names(mode: &str) -> Vec<&'static str> {
     } else if mode == "wild" {
         let mut v = META_RECEIVERS.to_vec();
         v.extend(["L1", "L2", "L3", "L1", "L2", "L3", "RHS", "RBI", "RHP", "RHN", "RBH"]);
+        v.extend(crate::gen_schema::META_NAMES);
         v
     } else {
         let mut v = META_RECEIVERS.to_vec();
         v.extend(["RHS", "RBI", "RHP", "RHN", "RBH"]);
+        v.extend(crate::gen_schema::META_NAMES);
         v
     }
 }
@@ -1028,7 +1030,9 @@ pub fn generate_elem(run_seed: u64, mode: &'static str, recvs: &'static std::col
         allow,
         max_depth: grng.range(1, 2),
     };
-    let receiver = *grng.pick(&ELEM_RECEIVERS);
+    let mut elem_names: Vec<&'static str> = ELEM_RECEIVERS.to_vec();
+    elem_names.extend(crate::gen_schema::ELEM_NAMES);
+    let receiver = *grng.pick(&elem_names);
     let top = crate::schema::elems().get(receiver).expect("schema").clone();
     let d = match top.newtype_of {
         Some(inner) => crate::schema::elems().get(inner).expect("schema").clone(),
